@@ -123,6 +123,25 @@ func init() {
 		skel(x, "EndpointID", "UnmarshalCbor", "eidUnmarshal")
 		skel(x, "DtnEndpoint", "UnmarshalCbor", "dtnUnmarshal")
 		skel(x, "", "calculateCRCBuff", "calculateCRCBuff")
+		// … and the per-type value codecs, endpoint and timestamp codecs
+		for _, f := range [][3]string{
+			{"DtnEndpoint", "MarshalCbor", "dtnMarshal"},
+			{"IpnEndpoint", "MarshalCbor", "ipnMarshal"}, {"IpnEndpoint", "UnmarshalCbor", "ipnUnmarshal"},
+			{"CreationTimestamp", "MarshalCbor", "timestampMarshal"}, {"CreationTimestamp", "UnmarshalCbor", "timestampUnmarshal"},
+			{"PayloadBlock", "MarshalBinary", "payloadMarshal"}, {"PayloadBlock", "UnmarshalBinary", "payloadUnmarshal"},
+			{"GenericExtensionBlock", "MarshalBinary", "genericMarshal"}, {"GenericExtensionBlock", "UnmarshalBinary", "genericUnmarshal"},
+			{"PreviousNodeBlock", "MarshalCbor", "prevNodeMarshal"}, {"PreviousNodeBlock", "UnmarshalCbor", "prevNodeUnmarshal"},
+			{"BundleAgeBlock", "MarshalCbor", "ageMarshal"}, {"BundleAgeBlock", "UnmarshalCbor", "ageUnmarshal"},
+			{"HopCountBlock", "MarshalCbor", "hopMarshal"}, {"HopCountBlock", "UnmarshalCbor", "hopUnmarshal"},
+			{"BinarySprayBlock", "MarshalCbor", "sprayMarshal"}, {"BinarySprayBlock", "UnmarshalCbor", "sprayUnmarshal"},
+			{"DTLSRBlock", "MarshalCbor", "dtlsrMarshal"}, {"DTLSRBlock", "UnmarshalCbor", "dtlsrUnmarshal"},
+			{"ProphetBlock", "MarshalCbor", "prophetMarshal"}, {"ProphetBlock", "UnmarshalCbor", "prophetUnmarshal"},
+			{"SignatureBlock", "MarshalCbor", "signatureMarshal"}, {"SignatureBlock", "UnmarshalCbor", "signatureUnmarshal"},
+			{"ExtensionBlockManager", "createBlock", "createBlock"},
+		} {
+			skel(x, f[0], f[1], f[2])
+		}
+		skel(x, "", "parseDtnSsp", "parseDtnSsp")
 
 		// the CRC comparison guards acceptance in both block parsers
 		x.Bool("primaryCrcGuard", anyContains(pu, "!bytes.Equal(crcCalc, crcVal)"))
